@@ -41,8 +41,8 @@ class PullCap(Exception):
 class Source:
     """k0, k0+1, ... counting every pull; refuses to be drained"""
 
-    def __init__(self, k0):
-        self.k0, self.pulls = k0, 0
+    def __init__(self, k0, records=False):
+        self.k0, self.pulls, self.records = k0, 0, records
 
     def __iter__(self):
         return self
@@ -51,7 +51,8 @@ class Source:
         self.pulls += 1
         if self.pulls > CAP:
             raise PullCap()
-        return self.k0 + self.pulls - 1
+        v = self.k0 + self.pulls - 1
+        return {"a": v, "b": 0} if self.records else v
 
 
 def text_of(stages, k):
@@ -61,13 +62,14 @@ def text_of(stages, k):
 
 def observe(k0, stages, k):
     """-> (observation, pulls, ticks total, ticks per lambda, yaql text)"""
-    src = Source(k0)
+    recs = bool(stages) and stages[0][0] == "attr"      # member projection: the source yields records {a: n, b: 0}
+    src = Source(k0, recs)
     sc.TICKS.clear()
     text = text_of(stages, k)
     o = sc.evaluate(text, src, timeout=30)
     if o[0] == "err" and o[1] == "EOther" and o[2].startswith("watchdog") and src.pulls <= CAP:
         # no answer although the source was barely touched: machine load, not the pipeline - once more
-        src = Source(k0)
+        src = Source(k0, recs)
         sc.TICKS.clear()
         o = sc.evaluate(text, src, timeout=90)
     ticks = dict(sc.TICKS)
@@ -100,6 +102,9 @@ def grid(run):
                    ("zip", ((5, 6, 7),)), ("zip", ((), )), ("accumulate", ("add2",), sc.NOSEED), ("accumulate", ("add2",), 10),
                    ("memorize",), ("join", (1, 2), ("gt2",), ("add2",)), ("plus", (7,))):
             out.append((0, [sg], k))
+    for k in ks:
+        out.append((0, [("attr",)], k))
+        out.append((1, [("attr",), ("where", P), ("select", F)], k))
     for t in (("first", sc.NOSEED), ("any", None), ("any", ("gt", 3)), ("all", ("lt", 3)), ("indexOf", 4), ("indexWhere", ("modeq", 4, 3)),
               ("contains", 5)):
         out.append((0, [t], None))
@@ -111,6 +116,8 @@ def grid(run):
 def gen_case(rng):
     k0 = rng.randrange(-3, 4)
     stages, kind, shape, n = [], "iter", "int", 6
+    if rng.random() < 0.1:
+        stages.append(("attr",))
     for _ in range(rng.randrange(1, 5)):
         sg, kind, shape, n = sc.gen_stage(rng, kind, shape, n, allow_terminal=False, streaming_only=True)
         stages.append(sg)
@@ -168,7 +175,7 @@ def twin(stage, xs):
     if k == "enumerate":
         s0 = 0 if stage[1] is None else stage[1]
         return [[s0 + i, x] for i, x in enumerate(xs)], (lambda j: j), 0     # Python lists: never equal to a tuple
-    if k == "memorize":
+    if k in ("memorize", "attr"):
         return list(xs), (lambda j: j), 0
     if k in ("append", "concat", "plus"):
         return list(xs), (lambda j: j), 0          # the endless first part is never left
@@ -251,7 +258,7 @@ SCOPE = {"select": "select", "where": "where", "selectMany": "selectMany", "skip
          "enumerate": "enumerate", "zip": "zip", "accumulate": "accumulate", "insert": "insert", "insertMany": "insertMany",
          "delete": "delete", "replace": "replace", "replaceMany": "replaceMany", "slice": "slice", "memorize": "memorize",
          "first": "first", "any": "any", "all": "all", "indexOf": "indexOf", "indexWhere": "indexWhere", "join": "join",
-         "contains": "contains", "#operator_+": "plus", "#operator_. (member projection over a collection)": None,
+         "contains": "contains", "#operator_+": "plus", "#operator_. (member projection over a collection)": "attr",
          "limit": "take", "filter": "where", "map": "select"}
 
 
@@ -300,7 +307,7 @@ def correspondence(run):
         nd = need_of(k0, [s for s in stages], k) if k is not None else None
         d["need"] = None if nd is None else nd[0]
         d["requires"] = "first k results, pulls and lambda applications as Model/Streams.v computes them (pulls <= need + 1)"
-        d["theorems"] = ["C14_bound_partial", "C14_short_circuit"]
+        d["theorems"] = ["C14_bound", "C14_bound_partial", "C14_take_k", "C14_short_circuit"]
         what = "watchdog: the pipeline did not produce its first results within %d pulls of the endless source" % CAP if o[0] == "cap" else \
             "consumption of the source / lambda applications differ from the reference model"
         run.fail("violation", "%s: %s" % (fns, what), d)
